@@ -28,7 +28,15 @@ def collected(fe, tab, ctxs, intern):
                                                             np.ma.getmaskarray(cr.results).reshape(-1)))
         out.append([cr.hash_key, intern.setdefault(flags, len(intern) + 1)])
     nd = sum(len(tests) for pk in dct.values() for tests in pk.values())
-    return out, nd
+    # the dict form, flattened to the same (key, flags) shape (uncovered rows are UNKNOWN there, not masked)
+    out_d = []
+    for sid, pk in dct.items():
+        for pkg, tests in pk.items():
+            for tname, arr in tests.items():
+                flags = tuple(None if m else int(v) for v, m in zip(np.ma.getdata(arr).reshape(-1).tolist(),
+                                                                    np.ma.getmaskarray(arr).reshape(-1)))
+                out_d.append([f"{sid}:{pkg}.{tname}", intern.setdefault(("dict", flags), len(intern) + 1)])
+    return out, nd, out_d
 
 
 def fault_entry(rng, kind, tab, used):
@@ -63,7 +71,7 @@ def run(out: Outcome, drv):
     out.rule = ("generated tables and configs with 1..3 healthy tests per stream over 1..3 contexts; 1..3 failing entries of every kind "
                 "(unknown module, unknown test, parameters the function rejects, required depth / position input not supplied, stream id "
                 "absent from the data, a callee that raises) inserted at random positions of random contexts; run on every front end; the "
-                "collected results must be exactly those each healthy (stream, module, test) yields when configured alone on the same "
+                "collected results (list form and dict form) must be exactly those each healthy (stream, module, test) yields when configured alone on the same "
                 "front end (IoosQc.C18.holds); non-trivial = at least one failing entry was configured")
     rng = gen.rng_for(out.seed, "C18")
     reqs, meta = [], []
@@ -103,13 +111,13 @@ def run(out: Outcome, drv):
             intern = {}
             case = {"frontend": fe, "table": tab, "contexts_with_faults": faulty, "faults": placed}
             try:
-                obs, nd = collected(fe, tab, faulty, intern)
+                obs, nd, obs_d = collected(fe, tab, faulty, intern)
             except Exception as e:  # noqa: BLE001
                 out.record(case, True, [f"fe:{fe}", "run_error"])
                 out.violation(f"{WHAT}: run with failing entries did not complete on {fe}: {type(e).__name__}: {e}",
                               {"case": jsonable(case)})
                 continue
-            entries = []
+            entries, entries_d = [], []
             for (sid, m, name) in healthy_keys:
                 alone = []
                 for c in ctxs:
@@ -117,21 +125,29 @@ def run(out: Outcome, drv):
                     if ts:
                         alone.append({"window": c["window"], "streams": {sid: ts}})
                 try:
-                    r, _ = collected(fe, tab, alone, intern)
+                    r, _, rd = collected(fe, tab, alone, intern)
                 except Exception:  # noqa: BLE001
-                    r = []
+                    r, rd = [], []
                 if len(r) == 1:
                     entries.append({"key": r[0][0], "fault": "none", "result": r[0][1]})
                 elif len(r) == 0:
                     # the "healthy" test cannot run on this data either (e.g. rejects the window rows): it is a failing entry
                     entries.append({"key": f"{sid}:{m}.{name}", "fault": "raises", "result": 0})
+                if len(rd) == 1:
+                    entries_d.append({"key": rd[0][0], "fault": "none", "result": rd[0][1]})
+                elif len(rd) == 0:
+                    entries_d.append({"key": f"{sid}:{m}.{name}", "fault": "raises", "result": 0})
             for kind, key in placed:
                 entries.append({"key": key, "fault": kind, "result": 0})
+                entries_d.append({"key": key, "fault": kind, "result": 0})
             reqs.append({"kind": "c18", "entries": entries, "obs": obs})
-            meta.append((case, obs, entries, nd))
+            meta.append((case, obs, entries, nd, "list"))
+            reqs.append({"kind": "c18", "entries": entries_d, "obs": obs_d})
+            meta.append((case, obs_d, entries_d, len(obs_d), "dict"))
     ans = drv.run(reqs)
-    for (case, obs, entries, nd), a in zip(meta, ans):
-        out.record(case, bool(case["faults"]), [f"fe:{case['frontend']}"] + [f"fault:{k}" for k, _ in case["faults"]])
+    for (case, obs, entries, nd, form), a in zip(meta, ans):
+        case = dict(case, collected_as=form)
+        out.record(case, bool(case["faults"]), [f"fe:{case['frontend']}", f"how:{form}"] + [f"fault:{k}" for k, _ in case["faults"]])
         if not a["holds"] or nd != len(obs):
-            out.violation(f"{WHAT}: collected {obs} (dict form: {nd} results) but the healthy tests alone yield {a['model']}",
+            out.violation(f"{WHAT}: collected (how={form}) {obs} (dict form: {nd} results) but the healthy tests alone yield {a['model']}",
                           {"case": jsonable(case), "observed": obs, "entries": entries, "model": a["model"]})
